@@ -87,6 +87,9 @@ func init() {
 			check = c05Check(c, base, sc, recMemo{}, map[string]string{})
 		case "C06":
 			check = c06ConcCheck(c, base, sc, recMemo{}, nil)
+			if strings.HasPrefix(sc.Name, "W2-") {
+				check = c06TwoWriterCheck(c, base, sc, recMemo{})
+			}
 		case "C10":
 			check = c10Check(c, base, sc)
 		case "C11":
